@@ -93,6 +93,42 @@ def reach_unions(world, t):
     return [x for ty in reach_types(world, t) for x in walk_types(ty) if not isinstance(x, str) and x[0] == "union"]
 
 
+def has_enum_lit(world, t) -> bool:
+    """does t (or a field type of a class reachable from it) contain a Literal with an enum member among its values?"""
+    return any(not isinstance(x, str) and x[0] == "lit" and any(v[0] == "e" for v in x[1])
+               for ty in reach_types(world, t) for x in walk_types(ty))
+
+
+def class_closure(world, roots):
+    """the classes reachable from the given ones through field types"""
+    seen, todo = set(), list(roots)
+    while todo:
+        c = todo.pop()
+        if c in seen:
+            continue
+        seen.add(c)
+        for f in world["classes"][c]["fields"]:
+            if f["ty"] is not None:
+                todo.extend(type_classes(f["ty"]))
+    return seen
+
+
+def tuple_on_cycle(world, roots) -> bool:
+    """Is a class reachable from the given classes that refers back to itself THROUGH a heterogeneous tuple type
+    (`e: Optional[tuple[Self, int]]`)?  Region of the finding `recursive-class-hetero-tuple-late-binding`: the generated
+    dict hooks of a Converter unstructure such a tuple by run-time class, as a list."""
+    for c in class_closure(world, roots):
+        if world["classes"][c]["kind"] == "td":
+            continue
+        for f in world["classes"][c]["fields"]:
+            if f["ty"] is None:
+                continue
+            for t in walk_types(f["ty"]):
+                if not isinstance(t, str) and t[0] == "tup" and c in class_closure(world, type_classes(t)):
+                    return True
+    return False
+
+
 def union_by_construction(world, u) -> bool:
     """is the union a subset (>= 2 members) of a family the generator built to be distinguishable (unique required
     attributes and/or a Literal tag with pairwise different values)?  Such a union must never be refused."""
@@ -149,8 +185,15 @@ def supported(cfg, world, t, top=True, _seen=None, roundtrip=True) -> bool:
 
 
 class Gen:
-    def __init__(self, rng: random.Random, max_depth=3, big=False, no_any=False, recursive=True, unions=False, nt=False):
+    def __init__(self, rng: random.Random, max_depth=3, big=False, no_any=False, recursive=True, unions=False, nt=False,
+                 enum_lits=False, coercible=False):
         self.rng = rng
+        # `Literal[...]` types that contain enum members (structured by `_structure_enum_literal`, unstructured by
+        # run-time class); kept out of set-element / mapping-key / union-tag positions
+        self.enum_lits = enum_lits and not os.environ.get("VERIF_NO_ENUM_LITS")
+        # payload mutations that replace a leaf by a DIFFERENT value the leaf hooks accept and convert ('32' for an int,
+        # an int for a float, ...): accepted-and-changed, where most mutations are rejected
+        self.coercible = coercible
         # typing.NamedTuple classes (kind 'nt') in worlds, ('nt', k) types; VERIF_NO_NT=1 switches them off (to measure
         # what they change in a run's statistics)
         self.nt = nt and not os.environ.get("VERIF_NO_NT")
@@ -355,7 +398,11 @@ class Gen:
             # Optional / sequence / mapping, so that finite values exist
             me = ("td" if kind == "td" else "cls", ci)
             shape = r.choice([("opt", me), ("list", me), ("dict", "str", me), ("opt", ("list", me)), ("tup*", me),
-                              ("dict", "str", ("opt", me)), ("seq", ("opt", me)), ("map", "int", me)])
+                              ("dict", "str", ("opt", me)), ("seq", ("opt", me)), ("map", "int", me),
+                              # the self-reference two or more constructors deep
+                              ("opt", ("list", me)), ("dict", "str", ("list", me)), ("list", ("opt", me)),
+                              ("opt", ("tup", [me, "int"])), ("tup*", ("tup", ["int", me])),
+                              ("opt", ("dict", "str", ("list", me)))])
             f = r.choice(fields)
             f["ty"] = shape
             f["dflt"] = None
@@ -419,7 +466,7 @@ class Gen:
             if c < 0.7 and w["enums"]:
                 return ("enum", r.randrange(len(w["enums"])))
             if c < 0.8:
-                return self.lit()
+                return self.lit(w, enums=False)
             if c < 0.9 and depth > 0:
                 return ("opt", self.type(w, depth - 1, max_cls, hashable=True, allow_any=False))
             if depth > 0:
@@ -434,7 +481,7 @@ class Gen:
             if c < 0.78 and w["enums"]:
                 return ("enum", r.randrange(len(w["enums"])))
             if c < 0.86:
-                return self.lit()
+                return self.lit(w)
             if n_cls > 0:
                 ci = r.randrange(n_cls)
                 return ({"td": "td", "nt": "nt"}.get(w["classes"][ci]["kind"], "cls"), ci)
@@ -458,14 +505,25 @@ class Gen:
             return (k, self.type(w, depth - 1, max_cls))
         return self.type(w, 0, max_cls)
 
-    def lit(self):
+    def lit(self, w=None, enums=True):
         r = self.rng
         n = r.randint(1, 3)
         pool = [("i", 1), ("i", 2), ("i", -1), ("s", "b"), ("s", "x7"), ("s", ""), ("b", True), ("i", 0), ("b", False)]
+        cand = r.sample(pool, n)
+        if enums and self.enum_lits and w is not None and w["enums"] and r.random() < 0.4:
+            # enum members among the literal's values (in any position)
+            for _ in range(r.randint(1, 2)):
+                e = r.randrange(len(w["enums"]))
+                cand.insert(r.randint(0, len(cand)), ("e", e, r.randrange(len(w["enums"][e]))))
+            cand = cand[:3]
+
+        def key(v):  # what `_structure_enum_literal` indexes: the member's value, or the plain value
+            return w["enums"][v[1]][v[2]] if v[0] == "e" else v
+
         vals = []
-        for v in r.sample(pool, n):
-            # keep literal members pairwise distinct under ==
-            if not any(py_eq(v, u) for u in vals):
+        for v in cand:
+            # keep the literal's values (and the keys they are looked up by) pairwise distinct under ==
+            if not any(py_eq(key(v), key(u)) or v == u for u in vals):
                 vals.append(v)
         return ("lit", vals)
 
@@ -563,7 +621,13 @@ class Gen:
                     xs.append(v)
             return (r.choice(["S", "F"]), xs)
         if c < 0.84:
-            return ("d", self._uniq_kvs([(self.any_leaf(), self.any_value(w, depth - 1, stable, no_nt)) for _ in range(r.randint(0, 2))]))
+            # keys: leaves, or enum members (a mapping reached by run-time class must unstructure its KEYS too)
+            def any_key():
+                if w["enums"] and r.random() < 0.3:
+                    e = r.randrange(len(w["enums"]))
+                    return ("e", e, r.randrange(len(w["enums"][e])))
+                return self.any_leaf()
+            return ("d", self._uniq_kvs([(any_key(), self.any_value(w, depth - 1, stable, no_nt)) for _ in range(r.randint(0, 2))]))
         if c < 0.9 and w["enums"]:
             e = r.randrange(len(w["enums"]))
             return ("e", e, r.randrange(len(w["enums"][e])))
@@ -634,6 +698,15 @@ class Gen:
         def fn(x):
             t = x[0]
             c = r.random()
+            if self.coercible and t in ("i", "f", "b", "s") and r.random() < 0.35:
+                # a different value that the leaf hook of the position ACCEPTS and converts
+                if t == "i":
+                    return r.choice([("s", str(x[1])), ("f", 2 * x[1]), ("f", 2 * x[1] + 1)])
+                if t == "f":
+                    return r.choice([("i", x[1] // 2), ("s", str(x[1] // 2)), ("b", x[1] % 4 == 2)])
+                if t == "b":
+                    return r.choice([("i", 1 if x[1] else 0), ("i", 7), ("s", ""), ("s", "0")])
+                return r.choice([("i", 17), ("b", True), ("y", "6263")])
             if t == "d":
                 kvs = list(x[1])
                 if c < 0.3 and kvs:
